@@ -101,6 +101,17 @@ func Build(events []Event) *Doc {
 			}
 		case "N":
 			cur.Decls = append(cur.Decls, e)
+			if e.Local == "" && e.Value == "" {
+				// xmlns="" undeclares the default namespace: no namespace node
+				kept := cur.NSNodes[:0]
+				for _, x := range cur.NSNodes {
+					if x.Local != "" {
+						kept = append(kept, x)
+					}
+				}
+				cur.NSNodes = kept
+				continue
+			}
 			replaced := false
 			for _, x := range cur.NSNodes {
 				if x.Local == e.Local {
